@@ -21,6 +21,9 @@ import (
 
 var lengths = []int{0, 1, 47, 48, 49, 75, 76, 100, 1024, 2048}
 
+// allFlips (thorough): every byte of every NTS request around every valid first byte is flipped.
+var allFlips = false
+
 type dgram struct {
 	First   int    `json:"first_byte"`
 	Fill    string `json:"fill"`
@@ -62,6 +65,15 @@ func validHeader(b byte) bool {
 func TestCheck(t *testing.T) {
 	mc.Main(t, "C09", func(r *mc.Run) {
 		if !r.Replaying() {
+			// every datagram length up to 100 (200) bytes, then the buffer-size neighbourhood
+			lengths = lengths[:0]
+			for l := 0; l <= mc.Pick(r, 100, 200); l++ {
+				lengths = append(lengths, l)
+			}
+			lengths = append(lengths, 1023, 1024, 1025, 2047, 2048)
+			allFlips = r.Thorough()
+		}
+		if !r.Replaying() {
 			for _, v6 := range []string{"false", "true", "client-only", "server-only"} {
 				for _, ps := range []kit.PathSpec{{Kind: "empty"}, {Kind: "scion", Segs: []int{2, 2}}, {Kind: "onehop"}} {
 					if r.Mine() {
@@ -91,7 +103,7 @@ func TestCheck(t *testing.T) {
 			}
 			runIP(r, nsock, nil)
 		}
-		r.Extra["rule"] = "SCION listener (IPv4/IPv4, IPv6/IPv6, IPv4/IPv6 and IPv6/IPv4 client/server hosts x empty / two-segment SCION / one-hop path): the same payload space inside valid SCION/UDP packets, replies parsed with the SCION library (last hop, reversed path, swapped addresses and ports); IP listener (1 and 2 SO_REUSEPORT sockets): all 256 first bytes x 4 header fills x 10 datagram lengths (0..2048) x trailers {zeros, 0xff, constant}; valid NTS requests (pool levels 8 and 5, alternating between two client associations of the same server) around every first byte, and with single flipped bytes; every reply is fed back into the listener. Distinct = distinct datagrams; non-trivial = length >= 48 (reaches validation)"
+		r.Extra["rule"] = "SCION listener (IPv4/IPv4, IPv6/IPv6, IPv4/IPv6 and IPv6/IPv4 client/server hosts x empty / two-segment SCION / one-hop path): the same payload space inside valid SCION/UDP packets, replies parsed with the SCION library (last hop, reversed path, swapped addresses and ports); IP listener (1 and 2 SO_REUSEPORT sockets): all 256 first bytes x 4 header fills x every datagram length 0..100 (200) and 1023..1025, 2047, 2048 x trailers {zeros, 0xff, constant}; valid NTS requests (pool levels 8 and 5, alternating between two client associations of the same server) around every first byte, and with single flipped bytes (every byte for three first bytes; thorough: for every valid first byte); every reply is fed back into the listener. Distinct = distinct datagrams; non-trivial = length >= 48 (reaches validation)"
 	})
 }
 
@@ -259,7 +271,7 @@ func runIP(r *mc.Run, nsock int, only *dgram) {
 				d.Len = len(p)
 				send(d, p, ok, 0)
 				flips := []int{1, 47, 52, len(p) - 1}
-				if first == 0x23 || first == 0xe3 || first == 0x08 {
+				if first == 0x23 || first == 0xe3 || first == 0x08 || (allFlips && validHeader(byte(first))) {
 					flips = flips[:0]
 					for i := 1; i < len(p); i++ {
 						// flipping the low bit of an extension length byte makes the
@@ -370,7 +382,11 @@ func runSCION(r *mc.Run, v6 string, ps kit.PathSpec) {
 		}
 		for first := 0; first < 256; first++ {
 			for _, fill := range []string{"zeros", "client"} {
-				for _, l := range []int{0, 1, 47, 48, 49, 76, 100, 1024} {
+				sl := []int{0, 1, 47, 48, 49, 50, 51, 52, 75, 76, 77, 100, 1024}
+				if allFlips {
+					sl = lengths
+				}
+				for _, l := range sl {
 					trailers := []string{"zeros"}
 					if l > 48 {
 						trailers = []string{"zeros", "const"}
